@@ -81,13 +81,17 @@ End node_ind2.
 Record quirks := {
   q_pmap_nilmap : bool;   (* Prototype.Map AssignNode fallback never allocates w.m: the first value
                              assignment writes into a nil Go map and panics *)
-  q_uint_asint : bool;    (* DeepEqual and Copy read Kind_Int only through AsInt: a UintNode above
-                             MaxInt64 makes DeepEqual panic and Copy fail *)
+  q_eq_asint : bool;      (* DeepEqual reads Kind_Int only through AsInt: a UintNode above MaxInt64
+                             makes it panic *)
+  q_copy_asint : bool;    (* Copy reads Kind_Int only through AsInt: a UintNode above MaxInt64 makes
+                             it fail ("node violated contract") *)
   q_stream_oneshot : bool (* Prototype.Bytes AssignNode of a LargeBytesNode keeps the reader: the
                              built node is a streamBytes whose second AsBytes is empty *)
 }.
-Definition pinned : quirks := {| q_pmap_nilmap := true; q_uint_asint := true; q_stream_oneshot := true |}.
-Definition repaired : quirks := {| q_pmap_nilmap := false; q_uint_asint := false; q_stream_oneshot := false |}.
+Definition pinned : quirks :=
+  {| q_pmap_nilmap := true; q_eq_asint := true; q_copy_asint := true; q_stream_oneshot := true |}.
+Definition repaired : quirks :=
+  {| q_pmap_nilmap := false; q_eq_asint := false; q_copy_asint := false; q_stream_oneshot := false |}.
 
 Inductive err := EWrongKind | ERepeatedKey | ENotExists | EInvalidSegment | EOverread | EOther.
 
@@ -227,9 +231,10 @@ Fixpoint fmt_dec (fuel : nat) (n : N) (acc : bytes) : bytes :=
   | S f => let acc' := (48 + n mod 10) :: acc in
            if n <? 10 then acc' else fmt_dec f (n / 10) acc'
   end.
+(* an int64 has at most 19 decimal digits *)
 Definition format_int (z : Z) : bytes :=
-  if (z <? 0)%Z then 45 :: fmt_dec (S (N.size_nat (Z.to_N (- z)))) (Z.to_N (- z)) []
-  else fmt_dec (S (N.size_nat (Z.to_N z))) (Z.to_N z) [].
+  if (z <? 0)%Z then 45 :: fmt_dec 20 (Z.to_N (- z)) []
+  else fmt_dec 20 (Z.to_N z) [].
 
 (* strconv.ParseInt(s, 10, 64): optional sign, then at least one decimal digit and nothing else,
    value within int64; every failure is one error *)
@@ -322,7 +327,7 @@ Definition scalar_equal (q : quirks) (x y : node) : rres bool :=
   | KNull => ROk true
   | KBool => match as_bool x, as_bool y with Ok a, Ok b => ROk (Bool.eqb a b) | _, _ => RPanic end
   | KInt =>
-    if q_uint_asint q then
+    if q_eq_asint q then
       match as_int x, as_int y with Ok a, Ok b => ROk (a =? b)%Z | _, _ => RPanic end
     else
       match x, y with
@@ -652,7 +657,7 @@ Definition copy_script (q : quirks) (n : node) : res err (list aop) :=
   | KNull => Ok [AssignNull]
   | KBool => match as_bool n with Ok b => Ok [AssignBool b] | Err _ => Err EOther end
   | KInt =>
-    if q_uint_asint q then
+    if q_copy_asint q then
       match as_int n with Ok z => Ok [AssignInt z] | Err _ => Err EOther end
     else
       match n with
